@@ -3,12 +3,18 @@
 (* Scanner specification.  Many traces are concatenated; each begins with a    *)
 (* `reset` line.  A trace the specification cannot explain is recorded in `bad`*)
 (* (trace id, line number of the rejected event) and skipped.                   *)
+(* Traces of the batching layer on top of the scanner (batcher.go, the variants *)
+(* named batcher-x) carry `batch` events: a slice of lines handed to the channel *)
+(* with its BatchStart - and `blate` events: a batch the consumer kept, re-read *)
+(* after the channel was closed (ScannerBatch.tla: PartitionOK, BatchLinesOK).  *)
 EXTENDS Scanner, Json, TLC
 
 Trace == ndJsonDeserialize("trace.ndjson")
 
-VARIABLES l, tid, toks, bad
-tvars == <<pending, st, errs, ntoks, done, l, tid, toks, bad>>
+VARIABLES l, tid, toks, bad,
+          bsz,       \* batch size of the batcher under test (0: a bare scanner)
+          batches    \* the batches handed out so far (each a sequence of lines)
+tvars == <<pending, st, errs, ntoks, done, l, tid, toks, bad, bsz, batches>>
 
 Ev == Trace[l]
 IsEv(e) == l <= Len(Trace) /\ Ev.event = e /\ l' = l + 1
@@ -16,18 +22,39 @@ IsEv(e) == l <= Len(Trace) /\ Ev.event = e /\ l' = l + 1
 TReset ==
   /\ IsEv("reset")
   /\ pending' = <<>> /\ st' = "open" /\ errs' = 0 /\ ntoks' = 0 /\ done' = FALSE
-  /\ tid' = Ev.t /\ toks' = <<>>
-TRead == IsEv("read") /\ Deliver(Ev.data, Ev.err) /\ UNCHANGED <<tid, toks>>
-TTok  == IsEv("tok") /\ Emit(Ev.data) /\ toks' = Append(toks, Ev.data) /\ UNCHANGED tid
-TErr  == IsEv("err") /\ ReportErr /\ UNCHANGED <<tid, toks>>
-TEnd  == IsEv("end") /\ End /\ UNCHANGED <<tid, toks>>
+  /\ tid' = Ev.t /\ toks' = <<>> /\ bsz' = Ev.bsize /\ batches' = <<>>
+TRead == IsEv("read") /\ Deliver(Ev.data, Ev.err) /\ UNCHANGED <<tid, toks, bsz, batches>>
+TTok  == IsEv("tok") /\ Emit(Ev.data) /\ toks' = Append(toks, Ev.data) /\ UNCHANGED <<tid, bsz, batches>>
+TErr  == IsEv("err") /\ ReportErr /\ UNCHANGED <<tid, toks, bsz, batches>>
+TEnd  == IsEv("end") /\ End /\ UNCHANGED <<tid, toks, bsz, batches>>
 \* a retained slice, re-read after the scan finished, still holds the line it was handed out for
 TLate ==
   /\ IsEv("late") /\ done
   /\ Ev.k \in 1..Len(toks) /\ toks[Ev.k] = Ev.data
-  /\ UNCHANGED <<pending, st, errs, ntoks, done, tid, toks>>
+  /\ UNCHANGED <<pending, st, errs, ntoks, done, tid, toks, bsz, batches>>
 
-TStep == TReset \/ TRead \/ TTok \/ TErr \/ TEnd \/ TLate
+\* ---- the batching layer: a batch is the next 1..bsz lines of the stream, BatchStart the running count
+RECURSIVE TakeLines(_, _, _)
+\* <<ok, rest>>: are `ls` the next Len(ls) lines of the pending bytes p, and what is left
+TakeLines(p, closed, ls) ==
+  IF ls = <<>> THEN <<TRUE, p>>
+  ELSE LET nl == NextLine(p, closed) IN
+       IF nl = <<>> \/ nl[1] # ls[1] THEN <<FALSE, p>> ELSE TakeLines(nl[2], closed, Tail(ls))
+TBatch ==
+  /\ IsEv("batch") /\ ~done /\ bsz > 0
+  /\ Ev.start = ntoks + 1
+  /\ Len(Ev.lines) \in 1..bsz
+  /\ LET r == TakeLines(pending, st # "open", Ev.lines) IN r[1] /\ pending' = r[2]
+  /\ ntoks' = ntoks + Len(Ev.lines)
+  /\ batches' = Append(batches, Ev.lines)
+  /\ UNCHANGED <<st, errs, done, tid, toks, bsz>>
+\* a retained batch, re-read after the channel was closed, still holds the lines it was handed out with
+TBLate ==
+  /\ IsEv("blate") /\ done
+  /\ Ev.i \in 1..Len(batches) /\ batches[Ev.i] = Ev.lines
+  /\ UNCHANGED <<pending, st, errs, ntoks, done, tid, toks, bsz, batches>>
+
+TStep == TReset \/ TRead \/ TTok \/ TErr \/ TEnd \/ TLate \/ TBatch \/ TBLate
 
 RECURSIVE NextReset(_)
 NextReset(i) == IF i > Len(Trace) \/ Trace[i].event = "reset" THEN i ELSE NextReset(i + 1)
@@ -37,10 +64,10 @@ Skip ==
   /\ ~ENABLED TStep
   /\ bad' = Append(bad, [t |-> tid, l |-> l])
   /\ l' = NextReset(l + 1)
-  /\ UNCHANGED <<pending, st, errs, ntoks, done, tid, toks>>
+  /\ UNCHANGED <<pending, st, errs, ntoks, done, tid, toks, bsz, batches>>
 
 TInit == pending = <<>> /\ st = "open" /\ errs = 0 /\ ntoks = 0 /\ done = TRUE
-         /\ l = 1 /\ tid = 0 /\ toks = <<>> /\ bad = <<>>
+         /\ l = 1 /\ tid = 0 /\ toks = <<>> /\ bad = <<>> /\ bsz = 0 /\ batches = <<>>
 TNext == (TStep /\ UNCHANGED bad) \/ Skip
 TSpec == TInit /\ [][TNext]_tvars
 
